@@ -134,13 +134,7 @@ func (kv KV) ToYAML(label string) []*yaml.Node {
 	for _, k := range keys {
 		v, _ := kv.Get(k)
 
-		nodes[1].Content = append(nodes[1].Content, &yaml.Node{
-			Kind:  yaml.ScalarNode,
-			Value: k,
-		}, &yaml.Node{
-			Kind:  yaml.ScalarNode,
-			Value: v,
-		})
+		nodes[1].Content = append(nodes[1].Content, YAMLString(k), YAMLString(v))
 	}
 
 	return nodes
